@@ -1486,6 +1486,12 @@ def c02_scripts(ctx, E, quick):
             rest = rng.choice(("j65$", "j75$", "j64$")) + gen.ysalt(rng, rng.choice((0, 4, 8, 22, 86))) + rng.choice(("", "$", "$ignored"))
             g += [(ph, "$y$" + rest), (ph, "$gy$" + rest)]
         per["gost_yescrypt"] = g
+    # yescrypt family: decoded parameters, salt and the smix schedule over N, r, p, t (incl. one default-cost call: prehash pass)
+    if "yescrypt" in E:
+        ys = [s for s in gen.yescrypt_param_sweep(rng, full=not quick) if s.startswith("$y$") or (s.startswith("$7$") and "scrypt" in E)
+              or (s.startswith("$gy$") and "gost_yescrypt" in E)]
+        ys += ["$y$j9T$" + gen.ysalt(rng, 22), "$y$.65$" + gen.ysalt(rng, 4), "$y$/65/.$" + gen.ysalt(rng, 4), "$y$/65$" + gen.ysalt(rng, 8)]
+        per["yescrypt_params"] = [(gen.rand_phrase(rng, rng.choice((0, 5, 40, 200))), s) for s in ys]
     allreq = [(m, ph, s) for m, rq in per.items() for (ph, s) in rq]
     cmds = ["cfs 1", "logpc 1", "obj 0 0 0"] + ["crypt_rn 0 %s %s 32768" % (hx(ph), hx(s)) for (_, ph, s) in allreq]
     evs = [e for e in ctx.run_xcv(cmds) if e.get("e") in ("crypt_rn", "Fault")]
@@ -1496,7 +1502,11 @@ def c02_scripts(ctx, E, quick):
     for e in calls:
         e["yprev"] = 0
     for (m, ph, s), e in zip(allreq, calls):
-        if m == "sunmd5" or len(e.get("cfs", [])) > 600:
+        if m == "yescrypt_params":
+            e["cfs"] = {"k": "flat", "c": []}              # only the parameter / schedule facts are judged here
+        elif m == "gost_yescrypt":
+            e["cfs"] = {"k": "flat", "c": [c for c in e.get("cfs", []) if c["a"] == "streebog"]}
+        elif m == "sunmd5" or len(e.get("cfs", [])) > 600:
             to_instances(e)
         else:
             e["cfs"] = {"k": "flat", "c": e.get("cfs", [])}
@@ -1514,6 +1524,8 @@ def c02_scripts(ctx, E, quick):
                 parts.append((m, part))
             continue
         step = (1 if m == "sunmd5" else 3) if m in ("sha512crypt", "sha256crypt", "sunmd5", "md5crypt") else 40
+        if m == "yescrypt_params":
+            step = 25
         for i in range(0, len(chunks[m]), step):
             parts.append((m, chunks[m][i:i + step]))
     vs = ctx.validate_many([p[1] for p in parts], "TraceScripts.tla", "TraceScripts.cfg", "scr", par=6, timeout=3000)
@@ -1574,7 +1586,8 @@ def c02(ctx):
     cov = mc_coverage(ctx, 1, 1, [v], ev, {"corpus_fixed": len(fixed), "corpus_seeded": len(seeded), "released_source": src,
                                          "script_calls_evaluated_by_tlc": nscript,
                                          "scripted_methods": ["descrypt", "bigcrypt", "bsdicrypt", "md5crypt", "sha256crypt", "sha512crypt", "sunmd5", "sha1crypt", "nt",
-                                                              "gost_yescrypt (outer layer)", "bcrypt* (key expansion)"],
+                                                              "gost_yescrypt (outer layer)", "bcrypt* (key expansion)",
+                                                              "yescrypt/scrypt/gost-yescrypt (parameter decoding, salt, smix schedule)"],
                                          "predicates": ["Released: byte-identical to the released libcrypt.so.1 4.4.33 on the corpus",
                                                         "Script: equals the published algorithm evaluated by TLC (Scripts.tla)"]})
     cov["states"] = v["tlc"].get("distinct", 1)
